@@ -401,8 +401,20 @@ def plan(tier, seed):
     space = schema_space(tier)
     cases = [{"label": lab, "spec": spec, "sizes": [sz], "bound": d, "max_runs": 6000 if tier == "quick" else 60000}
              for lab, spec, sizes, d in space for sz in sizes]
+    # cold-start histories: the same strategy built as the very first pandera operation of a fresh interpreter
+    chk = [{"k": "lt", "a": [2]}]
+    lv = [S.comp(name="k1", dtype="int64", checks=chk), S.comp(name="k2", dtype="str", checks=[{"k": "isin", "a": [["p", "q"]]}])]
+    cold = [("series:int64", dict(_comp("int64", chk), kind="series", index=None)), ("column:int64", dict(_comp("int64", chk), kind="column")),
+            ("index:int64", dict(_comp("int64", chk), kind="index")),
+            ("multiindex", {"kind": "multiindex", "levels": lv, "strict": False, "ordered": True, "unique": None, "coerce": False}),
+            ("frame:cold", S.frame(cols=[S.comp(name="a", dtype="int64", checks=chk)], index=dict(S.comp(name="idx", dtype="int64", checks=chk), kind="single"))),
+            ("frame:cold_multi", S.frame(cols=[S.comp(name="a", dtype="int64", checks=chk)], index={"kind": "multi", "levels": lv, "strict": False, "ordered": True,
+                                                                                                     "unique": None, "coerce": False}))]
+    for lab, spec in cold:
+        cases.append({"label": lab, "spec": spec, "sizes": [2], "bound": 1, "cold": True})
     return {"cases": cases, "exhaustive": True,
-            "bounds": {"deviations": "Series/Index/Column-level schemas: 2 (quick) / 3 (thorough); DataFrame-level and the 19 further dtypes: 1 / 2; a schema whose exploration reaches "
+            "bounds": {"cold_start": "6 container kinds also explored in a fresh interpreter where building the strategy is pandera's first operation",
+                       "deviations": "Series/Index/Column-level schemas: 2 (quick) / 3 (thorough); DataFrame-level and the 19 further dtypes: 1 / 2; a schema whose exploration reaches "
                                      "max_runs executions is reported in counters.capped_schemas (then not exhaustive for that schema)", "sizes": "0..3 (frames 0..2 quick)",
                        "menus": "ints: shrink target, +-1, +2, bounds, bounds+-1 (or +-1000 when unbounded); floats: 0, +-1, .5, 1.5, +-2, 2.5, 3.5, +-1000, "
                                 "bounds, bounds+-0.5, +-1, nan if allowed; strings: 3 shortest lengths over the first 3 characters; booleans: both",
@@ -412,7 +424,39 @@ def plan(tier, seed):
                     "produced; non-trivial = schema for which >= 2 distinct examples were produced and judged"}
 
 
+def _run_cold(case):
+    """run one case in a fresh interpreter in which the strategy is the first thing pandera is asked to do
+    (lazily registered backends / check strategies are part of the history the property quantifies over)"""
+    import os
+    import subprocess
+    import sys
+
+    root = os.path.dirname(os.path.dirname(os.path.dirname(os.path.abspath(__file__))))
+    code = ("import sys,json,warnings;warnings.simplefilter('ignore');sys.path.insert(0,%r);from mc.props import c13;"
+            "print('@@'+json.dumps(c13.run_case(json.load(sys.stdin)), default=str))") % root
+    sub = dict(case)
+    sub.pop("cold")
+    p = subprocess.run([sys.executable, "-c", code], input=json.dumps(sub), text=True, capture_output=True,
+                       env=dict(os.environ, PYTHONHASHSEED="0"), timeout=600)
+    for line in p.stdout.splitlines():
+        if line.startswith("@@"):
+            res = json.loads(line[2:])
+            for v in res["viol"]:
+                v["key"] = "cold:" + v["key"]
+                if "case" in v:
+                    v["case"]["concrete"]["cold"] = True
+            res["outcome"] = "cold:" + str(res.get("outcome"))
+            return res
+    raise RuntimeError("cold run produced no result: " + p.stderr[-1500:])
+
+
 def run_case(case):
+    if case.get("cold") or case.get("concrete", {}).get("cold"):
+        c = dict(case)
+        if "concrete" in c:
+            c["concrete"] = {k: v for k, v in c["concrete"].items() if k != "cold"}
+        c["cold"] = True
+        return _run_cold(c)
     if "concrete" in case:
         c = case["concrete"]
         viol, st, outcome = run_schema(c["label"], c["spec"], [c["size"]], c["bound"])
